@@ -454,6 +454,12 @@ func init() {
 	register("srv.script", func(line string) string {
 		tmo := 20 * time.Second
 		cmd := exec.Command(os.Args[0], "srv.one")
+		// the child's scratch workspace lives under a directory the PARENT removes, so a crashed or killed child
+		// leaves nothing behind
+		if td, err := ioutil.TempDir("", "lhsrvp"); err == nil {
+			defer os.RemoveAll(td)
+			cmd.Env = append(os.Environ(), "TMPDIR="+td)
+		}
 		cmd.Stdin = strings.NewReader(line + "\n")
 		var so, se bytes.Buffer
 		cmd.Stdout = &so
